@@ -371,6 +371,10 @@ class SocksPeer:
                 self.stages_in.append(("greet", self.buf[: 2 + n]))
                 self.buf = self.buf[2 + n :]
                 m = self.method if self.method is not None else (self.offered[0] if self.offered else 0xFF)
+                if m == "unoffered":
+                    # a method the client did NOT offer (a broken proxy, or somebody stripping the
+                    # authentication): the peer then carries on as if that method had been agreed
+                    m = 0 if 0 not in self.offered else 2
                 out += self.raw.get("greet", bytes([5, m]))
                 self.stage = "auth" if m == 2 else "connect"
                 if m == 0xFF:
